@@ -2639,6 +2639,10 @@ func (s *Server) serveConnCounted(c net.Conn, countConcurrency bool) error {
 		ctx.connRequestNum = connRequestNum
 		ctx.time = time.Now()
 
+		// Remember whether the request body is streamed from the connection:
+		// after a timeout the old ctx belongs to the timed out handler.
+		_, streamedBody := ctx.Request.bodyStream.(*requestStream)
+
 		// If a client denies a request the handler should not be called
 		if continueReadingRequest {
 			s.Handler(ctx)
@@ -2649,6 +2653,11 @@ func (s *Server) serveConnCounted(c net.Conn, countConcurrency bool) error {
 			// Acquire a new ctx because the old one will still be in use by the timeout out handler.
 			ctx = s.acquireCtx(c)
 			timeoutResponse.CopyTo(&ctx.Response)
+			if streamedBody {
+				// The timed out handler still owns the streamed request body, which
+				// reads from this connection, so the next request cannot be found on it.
+				connectionClose = true
+			}
 		}
 
 		if ctx.IsHead() {
